@@ -334,9 +334,13 @@ type fakeCloud struct {
 	mu      sync.Mutex
 	stats   *stats.TrafficStats
 	stalled atomic.Bool // the statistics backend does not answer
+	live    atomic.Bool // both ends are attached (before that a stalled backend delays the tunnel's set-up, which is not judged)
 }
 
 func (f *fakeCloud) GetPortMapping(id string) (*models.PortMapping, error) {
+	for f.stalled.Load() && f.live.Load() {
+		time.Sleep(500 * time.Microsecond)
+	}
 	if id != f.mapping.ID {
 		return nil, errors.New("mapping not found")
 	}
@@ -421,6 +425,9 @@ type beh struct {
 	AttachK string `json:"attach_k,omitempty"` // how the finishing phase attaches a target the script did not attach
 	Route   bool   `json:"route,omitempty"`    // the server has a tunnel routing table (cluster deployment)
 	Loops   int    `json:"loops,omitempty"`    // a racy free-running script is executed this many times (the last run is recorded)
+	Frag    bool   `json:"frag,omitempty"`     // xnode: the TargetReady frame arrives in two TCP segments (split inside its header)
+	Long    bool   `json:"long,omitempty"`     // a hold lasts 31 s: longer than the 30 s constants of the code (ready timer, routing TTL, traffic-report tick)
+	Src     string `json:"src,omitempty"`      // "pkt": the source's tunnel connection comes through the packet path too (Handshake, TunnelOpen -> handleSourceBridge)
 }
 
 type run struct {
@@ -436,9 +443,10 @@ type run struct {
 	isAttached bool
 	xn         *xnode
 	cloud      *fakeCloud
-	skip       string       // the script asks for something this way of attaching cannot do (=> unrealisable)
-	late       string       // a step of the harness's own protocol did not complete in time (=> inconclusive)
-	lagMax     atomic.Int64 // worst scheduling lag seen by the canary (ns)
+	tcm        *session.TunnelConnectionManager // fwd: the server is the target's node
+	skip       string                           // the script asks for something this way of attaching cannot do (=> unrealisable)
+	late       string                           // a step of the harness's own protocol did not complete in time (=> inconclusive)
+	lagMax     atomic.Int64                     // worst scheduling lag seen by the canary (ns)
 }
 
 func (r *run) newConn(e string) (*fakeConn, stream.PackageStreamer) {
@@ -542,7 +550,7 @@ func (r *run) targetConn() (*fakeConn, stream.PackageStreamer) {
 }
 
 func (r *run) attach() {
-	if k := r.b.kindOfAttach(); k == "pkt" || k == "xnode" {
+	if k := r.b.kindOfAttach(); k == "pkt" || k == "xnode" || k == "fwd" {
 		c, _ := r.targetConn()
 		r.w.mu.Lock()
 		dead := c.inEOF || c.failed || c.closed
@@ -556,12 +564,15 @@ func (r *run) attach() {
 		if k == "pkt" {
 			err = r.attachPkt()
 			r.awaitCopiers()
+		} else if k == "fwd" {
+			err = r.attachPkt()
 		} else {
 			err = r.attachXnode()
 		}
 		if err != nil {
 			r.late = k + " attach did not complete: " + err.Error()
 		}
+		r.cloud.live.Store(true)
 		return
 	}
 	c, st := r.targetConn()
@@ -572,6 +583,7 @@ func (r *run) attach() {
 	r.w.attachAt = time.Now()
 	r.w.mu.Unlock()
 	r.bridge.SetTargetConnection(tc) // what handleTargetBridge / handleExistingBridge do
+	r.cloud.live.Store(true)
 	r.awaitCopiers()
 }
 
@@ -597,6 +609,12 @@ func (b *beh) kindOfAttach() string {
 func (r *run) attached() bool { return r.isAttached }
 
 func (r *run) registered() int {
+	if r.tcm != nil { // fwd: no bridge on this node; the tunnel is the connection manager's entry
+		if r.tcm.GetConnection(tunnelID) != nil {
+			return 1
+		}
+		return 0
+	}
 	if r.sm.GetTunnelBridgeByMappingID(mappingID, 0) != nil {
 		return 1
 	}
@@ -754,7 +772,8 @@ func executeOnce(env *fw.Env, b *beh) *fw.Trace {
 	for _, st := range b.Steps {
 		hasHold = hasHold || st.A == "hold"
 	}
-	if b.kindOfAttach() == "pkt" {
+	kind := b.kindOfAttach()
+	if kind == "pkt" || kind == "fwd" || b.Src == "pkt" {
 		// the packet path needs connection ids and the two handlers the server installs; a script that
 		// lets the tunnel outlive the heartbeat timeout runs with a short one (real: 60 s + 15 s sweep)
 		cfg := session.DefaultSessionConfig()
@@ -770,7 +789,7 @@ func executeOnce(env *fw.Env, b *beh) *fw.Trace {
 	defer within(2*time.Second, func() { r.sm.Close() })
 	defer func() { r.xn.shut() }()
 	routeDown := &atomic.Bool{}
-	if b.Route {
+	if b.Route && kind != "fwd" {
 		// the routing table lives in a shared store; its deletes can be made to fail (store unreachable)
 		st := doubles.NewStore("route", nil)
 		st.Fault = func(c *doubles.Call) error {
@@ -787,24 +806,45 @@ func executeOnce(env *fw.Env, b *beh) *fw.Trace {
 	r.cloud = cloud
 	defer cloud.stalled.Store(false)
 
-	w.logL(fw.Event{"ev": "Cfg", "lim": b.Lim, "mode": b.Mode, "via": b.Via})
+	cfgEv := fw.Event{"ev": "Cfg", "lim": b.Lim, "mode": b.Mode, "via": b.Via}
+	if b.Src != "" {
+		cfgEv["src"] = b.Src
+	}
+	w.logL(cfgEv)
 	if b.Mode == "gated" {
 		for _, e := range w.ends {
 			e.gated = true
 		}
 	}
-	// the source client's tunnel connection arrives: the server creates and registers the bridge
-	sc, sst := r.newConn("S")
-	req := &packet.TunnelOpenRequest{TunnelID: tunnelID, MappingID: mappingID}
-	if err := startSourceBridge(r.sm, req, sc, sst); err != nil {
-		return &fw.Trace{Status: fw.DriverError, Note: "startSourceBridge: " + err.Error()}
+	var br *tunnel.Bridge
+	if kind == "fwd" {
+		// the bridge lives on the source's node (played by the driver); nothing exists here before the target comes
+		if err := r.setupFwd(hasHold); err != nil {
+			return &fw.Trace{Status: fw.DriverError, Note: "fwd setup: " + err.Error()}
+		}
+		defer r.tcm.Close()
+	} else {
+		// the source client's tunnel connection arrives: the server creates and registers the bridge
+		sc, sst := r.newConn("S")
+		if b.Src == "pkt" {
+			if err := r.openPkt(sc, srcClient, nil); err != nil {
+				return &fw.Trace{Status: fw.Inconclusive, Note: "source tunnel connection through the packet path: " + err.Error()}
+			}
+		} else {
+			req := &packet.TunnelOpenRequest{TunnelID: tunnelID, MappingID: mappingID}
+			if err := startSourceBridge(r.sm, req, sc, sst); err != nil {
+				return &fw.Trace{Status: fw.DriverError, Note: "startSourceBridge: " + err.Error()}
+			}
+		}
+		// (the packet path acknowledges the TunnelOpen before handleSourceBridge registers the bridge)
+		for t0 := time.Now(); br == nil; time.Sleep(200 * time.Microsecond) {
+			br, _ = r.sm.GetTunnelBridgeByMappingID(mappingID, 0).(*tunnel.Bridge)
+			if br == nil && (b.Src != "pkt" || time.Since(t0) > gateWait) {
+				return &fw.Trace{Status: fw.DriverError, Note: "bridge not registered after the source's tunnel open"}
+			}
+		}
+		r.bridge = br
 	}
-	acc := r.sm.GetTunnelBridgeByMappingID(mappingID, 0)
-	br, ok := acc.(*tunnel.Bridge)
-	if !ok || br == nil {
-		return &fw.Trace{Status: fw.DriverError, Note: "bridge not registered after startSourceBridge"}
-	}
-	r.bridge = br
 	defer func() {
 		// leave nothing behind: free every parked call, end the tunnel
 		for i := 0; !w.mu.TryLock(); i++ { // (a panicking step may still hold the lock)
@@ -822,7 +862,9 @@ func executeOnce(env *fw.Env, b *beh) *fw.Trace {
 		}
 		w.cond.Broadcast()
 		w.mu.Unlock()
-		within(2*time.Second, func() { br.Close() }) // (a Close that hangs must not take the worker with it)
+		if br != nil {
+			within(2*time.Second, func() { br.Close() }) // (a Close that hangs must not take the worker with it)
+		}
 	}()
 
 	timedOut := false
@@ -915,7 +957,11 @@ func executeOnce(env *fw.Env, b *beh) *fw.Trace {
 			w.logL(fw.Event{"ev": "Env", "a": "statresume"})
 		case "hold":
 			w.logL(fw.Event{"ev": "Env", "a": "hold"})
-			if b.kindOfAttach() == "pkt" {
+			if b.Long {
+				r.busyHold(31 * time.Second)
+			} else if kind == "fwd" {
+				r.busyHold(holdFor)
+			} else if kind == "pkt" || b.Src == "pkt" {
 				time.Sleep(holdFor)
 			} else {
 				time.Sleep(20 * time.Millisecond)
@@ -924,6 +970,9 @@ func executeOnce(env *fw.Env, b *beh) *fw.Trace {
 			routeDown.Store(true)
 			w.logL(fw.Event{"ev": "Env", "a": "routefail"})
 		case "replace":
+			if br == nil {
+				return &fw.Trace{Status: fw.Unrealisable, Note: "no bridge on this node"}
+			}
 			w.mu.Lock()
 			// clean handover: nothing the source wrote on the old connection is still unread there
 			// (bytes in flight on a connection that is given up are nobody's promise)
@@ -940,6 +989,9 @@ func executeOnce(env *fw.Env, b *beh) *fw.Trace {
 			w.cond.Broadcast()
 			w.mu.Unlock()
 		case "extclose":
+			if br == nil {
+				return &fw.Trace{Status: fw.Unrealisable, Note: "no bridge on this node"}
+			}
 			w.mu.Lock()
 			w.markEnded("-", "bridge")
 			w.mu.Unlock()
@@ -1045,7 +1097,9 @@ func executeOnce(env *fw.Env, b *beh) *fw.Trace {
 	}
 	wait(func() bool { return r.registered() == 0 })
 	w.logL(fw.Event{"ev": "Forgot", "n": r.registered()})
-	w.logL(fw.Event{"ev": "Counters", "sent": br.GetBytesSent(), "recv": br.GetBytesReceived()})
+	if br != nil {
+		w.logL(fw.Event{"ev": "Counters", "sent": br.GetBytesSent(), "recv": br.GetBytesReceived()})
+	}
 	return r.result()
 }
 
@@ -1054,6 +1108,7 @@ func (r *run) result() *fw.Trace {
 	w.mu.Lock()
 	w.seal = true
 	ev := w.ev
+	late := r.late
 	w.mu.Unlock()
 	if n := nilConnCalls.Swap(0); n > 0 {
 		// the code under test called a method on a typed-nil connection (torn read of an interface
@@ -1063,8 +1118,8 @@ func (r *run) result() *fw.Trace {
 	if r.skip != "" {
 		return &fw.Trace{Status: fw.Unrealisable, Note: r.skip, Events: ev}
 	}
-	if r.late != "" {
-		return &fw.Trace{Status: fw.Inconclusive, Note: r.late, Events: ev}
+	if late != "" {
+		return &fw.Trace{Status: fw.Inconclusive, Note: late, Events: ev}
 	}
 	t := &fw.Trace{Status: fw.Realised, Events: ev, Note: r.desync}
 	// a starved process makes the watchdog observations meaningless: do not judge them
